@@ -157,12 +157,35 @@ impl Compiler {
         Ok(())
     }
 
+    /// The `let`/`const` names declared directly in `body` exist from the start of the block,
+    /// uninitialised (temporal dead zone): a use before the declaration must not fall
+    /// through to a variable of the same name in an enclosing scope.
+    pub(super) fn emit_lexical_prelude(&mut self, body: &[Statement]) -> Result<(), JsError> {
+        for stmt in body {
+            if let Statement::VariableDeclaration(decl) = stmt
+                && decl.kind != VariableKind::Var
+            {
+                let mut names = Vec::new();
+                for declarator in decl.declarations.iter() {
+                    Self::collect_pattern_names(&declarator.id, &mut names);
+                }
+                for name in names {
+                    let idx = self.builder.add_string(name)?;
+                    self.builder
+                        .emit(Op::DeclareUninitialized { name: idx });
+                }
+            }
+        }
+        Ok(())
+    }
+
     /// Compile a block statement
     fn compile_block(&mut self, block: &BlockStatement) -> Result<(), JsError> {
         self.builder.set_span(block.span);
 
         // Push a new scope
         self.builder.emit(Op::PushScope);
+        self.emit_lexical_prelude(&block.body)?;
 
         if block.body.is_empty() && self.track_completion {
             // Empty block has completion value undefined
@@ -951,6 +974,7 @@ impl Compiler {
 
             // Push scope for catch variable
             self.builder.emit(Op::PushScope);
+            self.emit_lexical_prelude(&handler.body.body)?;
 
             // Bind exception to parameter
             if let Some(param) = &handler.param {
@@ -996,10 +1020,13 @@ impl Compiler {
         if let Some(finalizer) = &try_stmt.finalizer {
             self.builder.set_span(finalizer.span);
 
-            // Compile finally block
+            // Compile finally block (a block of its own: its let/const do not leak out)
+            self.builder.emit(Op::PushScope);
+            self.emit_lexical_prelude(&finalizer.body)?;
             for stmt in finalizer.body.iter() {
                 self.compile_statement_impl(stmt)?;
             }
+            self.builder.emit(Op::PopScope);
 
             // FinallyEnd completes any pending return/throw
             self.builder.emit(Op::FinallyEnd);
@@ -1236,6 +1263,7 @@ impl Compiler {
 
         // Hoist var declarations in the function body
         func_compiler.emit_hoisted_declarations(body)?;
+        func_compiler.emit_lexical_prelude(body)?;
 
         // Compile the body statements
         for stmt in body {
@@ -2247,6 +2275,7 @@ impl Compiler {
 
         // Hoist var declarations in constructor body
         func_compiler.emit_hoisted_declarations(&ctor.body.body)?;
+        func_compiler.emit_lexical_prelude(&ctor.body.body)?;
 
         // Compile constructor body
         for stmt in ctor.body.body.iter() {
